@@ -7,6 +7,7 @@
    Theorems quantify over EVERY schedule (also ones no Go run can follow). *)
 From Apko Require Import Base.Prelude Generated.VersionConsts Generated.C03Version Model.Version Model.Resolver
   Spec.ResolveSpec Proofs.ResolveProofs Proofs.ResolveProofs2 Proofs.ResolveTheorems Proofs.ResolveEnvelope Proofs.ResolveNoPanic.
+From Apko Require Proofs.ResolveClosure2.
 Open Scope string_scope. Open Scope list_scope. Open Scope nat_scope.
 
 (* the verified validator run on the implementation's results decides the specification *)
@@ -92,26 +93,37 @@ Theorem c02_closed_refuted :
 Proof. exact closed_refuted_lemma. Qed.
 Print Assumptions c02_closed_refuted.
 
-(* PARTIAL (what does hold, proved): inside the envelope — no install_if, no
-   dependency on a self-provided name, one provider per name, version operators
-   only on package names (Spec.ResolveSpec.envelope_b; it is also the harness's
-   in-envelope stream, where ANY validator failure is a VIOLATION) — three of
-   the four clauses of Closed hold: no duplicate names, members from the
-   universe, and EVERY REQUEST IS SATISFIED in the sense of the Spec (names are
-   unique, so the very candidate chosen for a request is a member; the name map
-   is sound; constrain has disqualified it unless its own version passes).
-   NOT proved: the fourth clause, the closure of the dependencies of every
-   member (needs an invariant of get_deps relating `selected`, `dq`, `parents`
-   and the returned list); it is checked on the implementation's result by the
-   verified validator on every in-envelope case.  See notes/C02.md. *)
+(* PARTIAL in one sense only: it holds INSIDE THE ENVELOPE — no install_if, no
+   dependency on a self-provided name, exactly one provider per name (own or
+   provided), version operators only on package names
+   (Spec.ResolveSpec.envelope_b; it is also the harness's in-envelope stream,
+   where ANY validator failure is a VIOLATION).  There a successful result is
+   CLOSED in the full sense of the Spec, all four clauses: no duplicate names,
+   members from the universe, EVERY REQUEST IS SATISFIED (names are unique, so
+   the very candidate chosen for a request is a member; the name map is sound;
+   constrain has disqualified it unless its own version passes), and EVERY
+   NON-CONFLICT DEPENDENCY OF EVERY MEMBER IS SATISFIED BY A MEMBER
+   (Proofs/ResolveClosure2.v: invariant of getPackageDependencies — every
+   holder of `selected` and every package handed to the recursion ends in the
+   returned list; a dependency skipped through `selected` is satisfied by its
+   holder, who is the unique provider and passes the version test; a dependency
+   evaluated to options is chosen or later skipped; the cycle cut through
+   `parents` skips only names being expanded higher up).  Outside the envelope
+   the statement is false: c02_closed_refuted.  See notes/C02.md. *)
 Theorem c02_closed_partial : forall U W dq0 scheds S,
   envelope_b U W = true -> resolve U W dq0 scheds = Ok S ->
   NoDup (List.map p_name (pkgs_of U S)) /\ incl (pkgs_of U S) U /\
   (forall w, In w W -> satisfies_dep (pkgs_of U S) w) /\
+  (forall p d, In p (pkgs_of U S) -> In d (p_deps p) -> is_conflict d = false -> satisfies_dep (pkgs_of U S) d) /\
+  Closed U W (pkgs_of U S) /\
   (forall w, In w W -> exists dq i, incl dq0 dq /\ In i (candidates (new_resolver U) dq (cook_str w)) /\ In i S).
-Proof. exact closed_partial_lemma2. Qed.
+Proof. exact ResolveClosure2.closed_partial_lemma3. Qed.
 Print Assumptions c02_closed_partial.
+(* inside the envelope: a cycle (a -> b -> c -> a), a versioned dependency on a
+   package name, a virtual with one provider asked for twice, a self-dependency,
+   a conflict entry *)
 Example c02_closed_partial_example :
-  envelope_b [wp "a" "1.0" ["b>0.5"; "v"] [] []; wp "b" "1.0" [] ["v=2"] []] ["a"; "v"] = true /\
-  resolve [wp "a" "1.0" ["b>0.5"; "v"] [] []; wp "b" "1.0" [] ["v=2"] []] ["a"; "v"] [] [] = Ok [1; 0].
-Proof. vm_compute. split; reflexivity. Qed.
+  let U := [wp "a" "1.0" ["b>0.5"; "v"; "a"] [] []; wp "b" "1.0" ["c"; "!zz"] ["v=2"] []; wp "c" "2.0" ["a<2"; "v"] [] []] in
+  envelope_b U ["a"; "v"] = true /\ resolve U ["a"; "v"] [] [] = Ok [2; 1; 0] /\
+  closed_b U ["a"; "v"] (pkgs_of U [2; 1; 0]) = true.
+Proof. vm_compute. repeat split; reflexivity. Qed.
